@@ -44,8 +44,12 @@ type stdHop struct {
 
 func (s *stdSvc) gHop(rt *rapid.T, label string, proto string) (AURI, string) {
 	u := AURI{Scheme: "sip"}
-	kind := rapid.SampledFrom([]string{"never-learned", "never-learned-alias", "primed-L1", "primed-L2", "default-port"}).Draw(rt, label+".kind")
+	kind := rapid.SampledFrom([]string{"never-learned", "never-learned-alias", "primed-L1", "primed-L2", "default-port", "a-user-agent", "a-user-agent"}).Draw(rt, label+".kind")
 	switch kind {
+	case "a-user-agent":
+		// user agents are learned through whichever listener (UDP or TCP, any
+		// listen entry) they last sent a request to
+		u.Host, u.Port = s.ip(10+rapid.IntRange(0, 3).Draw(rt, label+".ua")), rapid.SampledFrom([]int{5060, 6010, 0}).Draw(rt, label+".uaport")
 	case "never-learned":
 		u.Host, u.Port = s.ip(25), 5070
 	case "never-learned-alias":
